@@ -18,7 +18,7 @@ import (
 	zz "github.com/regen-network/regen-ledger/x/ecocredit/v3/zzverif"
 )
 
-func symKeeper() (Keeper, []byte) {
+func zzvSymKeeper() (Keeper, []byte) {
 	ss := zz.OrmStore("basket").(api.StateStore)
 	cs := zz.OrmStore("ecocredit").(baseapi.StateStore)
 	bk := zz.BankKeeper().(ecocredit.BankKeeper)
@@ -26,15 +26,15 @@ func symKeeper() (Keeper, []byte) {
 	return NewKeeper(ss, cs, bk, zz.ModuleAddr(basket.BasketSubModuleName), sdk.AccAddress(authority)), authority
 }
 
-func runStep(req sdk.Msg, call func(k Keeper, ctx context.Context) error, hook func(s *zzinv.Step)) {
+func zzvRunStep(req sdk.Msg, call func(k Keeper, ctx context.Context) error, hook func(s *zzinv.Step)) {
 	zzinv.Install()
-	k, authority := symKeeper()
+	k, authority := zzvSymKeeper()
 	zzinv.RunStep(authority, req, func(ctx context.Context) error { return call(k, ctx) }, nil, hook)
 }
 
 func VerifHarness_Step_BasketCreate() {
 	req := &types.MsgCreate{}
-	runStep(req, func(k Keeper, ctx context.Context) error { _, err := k.Create(ctx, req); return err },
+	zzvRunStep(req, func(k Keeper, ctx context.Context) error { _, err := k.Create(ctx, req); return err },
 		func(s *zzinv.Step) {
 			s.SkipC05 = true
 			var fee api.BasketFee
@@ -82,7 +82,7 @@ func VerifHarness_Step_BasketCreate() {
 
 func VerifHarness_Step_BasketPut() {
 	req := &types.MsgPut{}
-	runStep(req, func(k Keeper, ctx context.Context) error { _, err := k.Put(ctx, req); return err },
+	zzvRunStep(req, func(k Keeper, ctx context.Context) error { _, err := k.Put(ctx, req); return err },
 		func(s *zzinv.Step) {
 			if s.Err == nil {
 				var b api.Basket
@@ -134,7 +134,7 @@ func VerifHarness_Step_BasketTake() {
 	zz.AssumeLoopBound("keeper.Keeper).Take", zz.Bound("iter", 1)+1)
 	req := &types.MsgTake{}
 	var resp *types.MsgTakeResponse
-	runStep(req, func(k Keeper, ctx context.Context) error { r, err := k.Take(ctx, req); resp = r; return err },
+	zzvRunStep(req, func(k Keeper, ctx context.Context) error { r, err := k.Take(ctx, req); resp = r; return err },
 		func(s *zzinv.Step) {
 			if s.Err == nil {
 				var b api.Basket
@@ -170,7 +170,7 @@ func VerifHarness_Step_BasketTake() {
 		})
 }
 
-func govOnly(name string) func(s *zzinv.Step) {
+func zzvGovOnly(name string) func(s *zzinv.Step) {
 	return func(s *zzinv.Step) {
 		if s.Err == nil {
 			zz.Assert(zz.BytesEq(s.Signer, s.Authority), "C08 "+name+" succeeds only for the governance authority")
@@ -180,12 +180,12 @@ func govOnly(name string) func(s *zzinv.Step) {
 
 func VerifHarness_Step_BasketUpdateBasketFee() {
 	req := &types.MsgUpdateBasketFee{}
-	runStep(req, func(k Keeper, ctx context.Context) error { _, err := k.UpdateBasketFee(ctx, req); return err }, govOnly("UpdateBasketFee"))
+	zzvRunStep(req, func(k Keeper, ctx context.Context) error { _, err := k.UpdateBasketFee(ctx, req); return err }, zzvGovOnly("UpdateBasketFee"))
 }
 
 func VerifHarness_Step_BasketUpdateCurator() {
 	req := &types.MsgUpdateCurator{}
-	runStep(req, func(k Keeper, ctx context.Context) error { _, err := k.UpdateCurator(ctx, req); return err },
+	zzvRunStep(req, func(k Keeper, ctx context.Context) error { _, err := k.UpdateCurator(ctx, req); return err },
 		func(s *zzinv.Step) {
 			if s.Err == nil {
 				var b api.Basket
@@ -200,5 +200,5 @@ func VerifHarness_Step_BasketUpdateCurator() {
 
 func VerifHarness_Step_BasketUpdateDateCriteria() {
 	req := &types.MsgUpdateDateCriteria{}
-	runStep(req, func(k Keeper, ctx context.Context) error { _, err := k.UpdateDateCriteria(ctx, req); return err }, govOnly("UpdateDateCriteria"))
+	zzvRunStep(req, func(k Keeper, ctx context.Context) error { _, err := k.UpdateDateCriteria(ctx, req); return err }, zzvGovOnly("UpdateDateCriteria"))
 }
